@@ -39,6 +39,7 @@ type world struct {
 	maxRun  int
 	arrived int
 	fails   []string
+	stopAt  int // tick at which Stop was called (0: never)
 }
 
 func (w *world) tick() int {
@@ -115,6 +116,11 @@ func (w *world) judge(c pcfg, exactlyOnce bool) {
 		if exactlyOnce && len(t.starts) == 0 && t.retSeq != 0 {
 			w.fails = append(w.fails, fmt.Sprintf("lost|task %s was handed to a pool that is never stopped but did not run", t.id))
 		}
+		if !exactlyOnce && w.stopAt != 0 && t.retSeq != 0 && t.retSeq < w.stopAt && len(t.starts) == 0 {
+			// Go returned before Stop was even called: the task was handed to the pool before it
+			// was stopped
+			w.fails = append(w.fails, fmt.Sprintf("lost-at-stop|task %s was handed to the pool (Go returned) before Stop was called, but never ran", t.id))
+		}
 		if len(t.starts) > 0 {
 			ran++
 		}
@@ -147,7 +153,7 @@ func poolBody(c pcfg) func() {
 				})
 			}
 			if c.stop {
-				vsched.GoNamed("stopper", func() { tp.Stop() })
+				vsched.GoNamed("stopper", func() { w.stopAt = w.tick(); tp.Stop() })
 			}
 			vsched.WaitIdle()
 			w.judge(c, !c.stop)
@@ -203,24 +209,31 @@ func poolBody(c pcfg) func() {
 				}
 			}
 			w.maxRun = 0
-			vsched.GoNamed("submitter0", func() {
-				for j := 0; j < c.each; j++ {
-					t := &task{id: fmt.Sprintf("hold%d", j)}
-					w.tasks = append(w.tasks, t)
-					t.callSeq = w.tick()
-					tp.Go(func() {
-						w.running++
-						if w.running > w.maxRun {
-							w.maxRun = w.running
-						}
-						t.starts = append(t.starts, w.tick())
-						vsched.Block("hold", func() bool { return release })
-						w.running--
-						t.ends = append(t.ends, w.tick())
-					})
-					t.retSeq = w.tick()
-				}
-			})
+			nsub := c.subs
+			if nsub < 1 {
+				nsub = 1
+			}
+			for sub := 0; sub < nsub; sub++ {
+				sub := sub
+				vsched.GoNamed(fmt.Sprintf("submitter%d", sub), func() {
+					for j := 0; j < c.each; j++ {
+						t := &task{id: fmt.Sprintf("hold%d.%d", sub, j)}
+						w.tasks = append(w.tasks, t)
+						t.callSeq = w.tick()
+						tp.Go(func() {
+							w.running++
+							if w.running > w.maxRun {
+								w.maxRun = w.running
+							}
+							t.starts = append(t.starts, w.tick())
+							vsched.Block("hold", func() bool { return release })
+							w.running--
+							t.ends = append(t.ends, w.tick())
+						})
+						t.retSeq = w.tick()
+					}
+				})
+			}
 			vsched.WaitIdle()
 			// judged here; the held tasks are not released (their n! completion orders add
 			// nothing to this question; exactly-once is the subject of the basic scenarios)
@@ -443,6 +456,9 @@ func build(tier string) []*vkit.Scenario {
 				if n == 3 || thorough {
 					addPool(pcfg{n: n, q: q, custom: custom, kind: "bound", each: n + 1, panicAt: -1, rounds: 2}, P1-1)
 				}
+				// several submitters at once against a small queue: nobody but the pool's own threads
+				// may run a task
+				addPool(pcfg{n: n, q: q, custom: custom, kind: "bound", subs: 3, each: 2, panicAt: -1}, P1-1)
 				if thorough {
 					addPool(pcfg{n: n, q: q, custom: custom, kind: "basic", subs: 2, each: 3, panicAt: 0}, P1)
 					addPool(pcfg{n: n, q: q, custom: custom, kind: "basic", subs: 3, each: 2, panicAt: -1, stop: true}, P1)
